@@ -54,6 +54,10 @@ func (wgb *WeightedAuthorizationModelGraphBuilder) VerifBuildUnweighted(model *o
 // VerifAssignWeightsInOrder is AssignWeights with the depth-first search started from the nodes in
 // the given order (unique labels); nodes not listed are visited afterwards in sorted order.
 func (wg *WeightedAuthorizationModelGraph) VerifAssignWeightsInOrder(order []string) error {
+	if wg.hasRewriteCycle() {
+		return ErrModelCycle
+	}
+
 	visited := make(map[string]bool)
 	ancestorPath := make([]*WeightedAuthorizationModelEdge, 0)
 	tupleCycleDependencies := make(map[string][]*WeightedAuthorizationModelEdge)
